@@ -62,7 +62,7 @@ def judge(prog, run, r):
 
 def run_case(prog):
     r = Result()
-    run = sched.run_program(prog, "do")
+    run = sched.run_program(prog, prog.get("mode") or "do")
     if run.exc == "Runaway":
         r.fail("C05/run-did-not-terminate", "more than %d cycles" % sched.MAX_CYCLES)
         return r
@@ -89,6 +89,7 @@ def run_case(prog):
         r.labels.append("finish-in-enter")
     if schedgen.depth_of(prog["doers"]):
         r.labels.append("nested")
+    r.labels.append("mode:" + (prog.get("mode") or "do"))
     return r
 
 
